@@ -117,7 +117,15 @@ func unitOp(res *opResult, kind int, seed uint64) {
 		// way a socket reader uses the package.  What a decoder returns may depend on the octets only, not on
 		// the identity or the history of the buffer: every datagram is decoded from a fresh copy as well.
 		n := 2 + r.intn(3)
-		base := genPacket(r.intn(numKinds), r.u64())
+		var base rtcp.Packet
+		for try := 0; ; try++ {
+			// a small value: the loop is about the buffer, and a tree may decode the packets of a datagram in ways
+			// whose cost grows quickly with their number
+			base = genPacket(r.intn(numKinds), r.u64()|seed&narrowBit)
+			if try >= 20 || len(dumpSem(base, false)) < 6000 {
+				break
+			}
+		}
 		grams := make([][]byte, 0, n)
 		longest := 0
 		for i := 0; i < n; i++ {
